@@ -161,10 +161,10 @@ type offer struct {
 }
 
 type round struct {
-	sc   *scenario
-	P    *roundP
-	rng  *vh.Rng
-	Prev wire.Hash
+	sc        *scenario
+	P         *roundP
+	rng       *vh.Rng
+	Prev      wire.Hash
 	Challenge wire.Hash
 	Height    uint64
 
@@ -177,9 +177,9 @@ type round struct {
 	tail      *big.Int
 	cbValue   int64
 
-	rejectsLeft  int
-	targetCalls  int64
-	bindingCalls int64
+	rejectsLeft   int
+	targetCalls   int64
+	bindingCalls  int64
 	coinbaseCalls int64
 }
 
